@@ -97,7 +97,14 @@ def run(rep, repo, tier):
                 constructed.add(n.func.id)
     long_lived = set(repo.classes) - constructed
     check_resets(rep, repo, E, solve, sreach, long_lived)
-    # ---- R3 -------------------------------------------------------------------------------------------------------
+    check_options_readonly(rep, repo, E, solve, getters, len(sevs), 'C18.R3')
+    check_never_fail(rep, repo, E, getters)
+    check_fresh_objects(rep, repo, E, solve, sreach, long_lived)
+
+
+def check_options_readonly(rep, repo, E, solve, getters, nsevs, rule):
+    """no mutation event of solve() / the getters has an option container (criterion list, extras, option dictionaries) on its
+    access path: what was parsed is what every later solve sees"""
     n3 = 0
     seen = set()
     for root_f in [solve] + getters:
@@ -116,12 +123,10 @@ def run(rep, repo, tier):
                 continue
             seen.add(key)
             n3 += 1
-            rep.fail('C18.R3', root_f.where, 'the option containers are never modified after parsing', got=ev.describe(), want='read-only use (copy before consuming)',
+            rep.fail(rule, root_f.where, 'the option containers are never modified after parsing', got=ev.describe(), want='read-only use (copy before consuming)',
                      construct='%s %s on options in %s: %s' % (ev.kind, ev.attr or '', ev.func.qualname, ev.text()), loc=ev.loc)
     if not n3:
-        rep.ok('C18.R3', solve.where, 'none of the %d mutation events of solve() and the getters has an option container on its access path' % len(sevs), got='0 tainted events')
-    check_never_fail(rep, repo, E, getters)
-    check_fresh_objects(rep, repo, E, solve, sreach, long_lived)
+        rep.ok(rule, solve.where, 'none of the %d mutation events of solve() and the getters has an option container on its access path' % nsevs, got='0 tainted events')
 
 
 # ---- benign memoisation ----------------------------------------------------------------------------------------------------
